@@ -11,6 +11,7 @@ import Driver.Cfg
 import Driver.Isect
 import Driver.Heap
 import Driver.Unov
+import Driver.Query
 /-! Model driver: one request per line on stdin, one answer per line on stdout.
     Pure areas answer from the request alone; `store` threads the backend states. -/
 open Drv
@@ -32,6 +33,7 @@ def dispatch (st : State) (line : String) : State × String :=
   | "isect" :: r => (st, Isect.handle r)
   | "punion" :: r => (st, Isect.handleUnion r)
   | "unov" :: r => (st, Unov.handle r)
+  | "q" :: r => (st, Query.handle r)
   | "commit" :: r => let (c', out) := Commit.handle st.commit r; ({ st with commit := c' }, out)
   | "heap" :: r => let (h', out) := HeapArea.handle st.heap r; ({ st with heap := h' }, out)
   | "store" :: r => let (s', out) := Store.handle st.store r; ({ st with store := s' }, out)
